@@ -25,6 +25,9 @@ func run(c *hc.Ctx) {
 	if c.Only == "" || c.Only == "corr" {
 		corr(c)
 	}
+	if c.Only == "" || c.Only == "splitat-corr" {
+		corrSplitAt(c)
+	}
 	if c.Only == "" || c.Only == "reverse" {
 		oracleReverse(c)
 	}
